@@ -369,6 +369,8 @@ def tie_on_asts(ck, exe_model, sexps, in_image, label):
         a = (a + [""] * 5)[:5]
         itoks, istatus, iprinted, idetail, ireparsed = unesc(a[0]), a[1], unesc(a[2]), unesc(a[3]), unesc(a[4])
         mtoks = unesc(b[0]) if b else ""
+        mimg = b[1] if len(b) > 1 else "?"
+        b = [b[0]] + b[2:] if len(b) > 1 else b
         mstatus = b[1] if len(b) > 1 else "ERR"
         if b and b[0].startswith("ERR"):
             ck.obligation("model-driver:" + label, "internal", False, "%s on %s" % (b[0][:200], s[:300]))
@@ -377,6 +379,9 @@ def tie_on_asts(ck, exe_model, sexps, in_image, label):
             ck.obligation("harness-builder:" + label, "internal", False, "%s on %s" % (istatus[:200], s[:300]))
             continue
         direct_fail = istatus not in ("OK",)
+        ck.hist(label + ":parser_image", mimg)
+        if in_image and mimg != "1":
+            corr_fail(ck, "correspondence:generator-vs-parser_image", "generated as a tree of the parser's image, but parser_image = %s: %s" % (mimg, s[:600]))
         ck.hist(label + ":impl_status", istatus)
         ck.hist(label + ":model_status", mstatus)
         # 1. direct oracle
@@ -427,6 +432,11 @@ def tie_on_parse(ck, exe_model, sources, label):
     for (origin, s, toks, dump), m in zip(todo, rm):
         ck.case(key="parse:" + s, nontrivial=len(toks) > 40)
         got = unesc(m[0]) if m else "ERR"
+        if len(m) > 1:
+            ck.hist(label + ":parser_image_of_parsed", m[0])
+            if m[0] != "1":
+                corr_fail(ck, "correspondence:image-closed-under-parse", "the model parser returned a tree outside parser_image for %s: %s" % (origin, unesc(m[1])[:600]))
+            got = unesc(m[1])
         if got.startswith("ERR"):
             ck.obligation("model-driver:" + label, "internal", False, "%s on %s" % (got[:200], origin))
             continue
